@@ -265,6 +265,65 @@ def show_terms(terms, cap=6):
 COMPLETENESS_MAXN = {"quick": 2, "thorough": 3}
 _TIER = ["quick"]
 
+# ---- ONE collection object: basis / twirl asked, the collection edited through its public API (append, insert, remove,
+# delete by index, replace, contract, sort), asked again.  Each answer must be the one a freshly built collection with the
+# strings held at that moment gives (and that one is judged by the qbasis oracle).
+def qhist_handle(line):
+    import impl_collection as IC, props.c10 as C10
+    try:
+        _, gs, ops = line.split(" ")
+        c = IC.mk(IC.strs(gs))
+        def observe(when):
+            cur = IC.names(c)
+            if not cur or not cur[0] or len(set(map(len, cur))) != 1:
+                return None
+            live = guard(lambda: S.show_basis(c.get_full_quadratic_basis()))
+            arg = ",".join(cur)
+            fresh = S.handle("qbasis " + arg)
+            if live != fresh:
+                return (f"{when}: get_full_quadratic_basis() on the edited collection {cur} gives {live[:160]}, a freshly built collection "
+                        f"with the same strings gives {fresh[:160]}")
+            why = oracle_qbasis("qbasis " + arg, fresh)
+            return f"{when}: {why}" if why else None
+        why = observe("before any edit")
+        if why:
+            return why
+        done = []
+        for op in ([] if ops == "-" else ops.split(";")):
+            try:
+                c = IC.edit(c, op.split(":"))
+            except Exception:
+                pass
+            done.append(op)
+            why = observe("after " + ";".join(done))
+            if why:
+                return why
+        return "ok"
+    except Exception as e:
+        return exc_name(e)
+
+def gen_qhist(rng, k):
+    import props.c10 as C10
+    out = []
+    for _ in range(k):
+        n = rng.choice([1, 2, 2])
+        cur = [G.rs(rng, n) for _ in range(rng.randint(1, 3))]
+        init = list(cur)
+        ops = []
+        for _ in range(rng.randint(1, 3)):
+            kind = rng.choice(["app", "ins", "rem", "del", "del", "rep", "con", "sort"])
+            if kind == "app": t = [kind, G.rs(rng, n)]
+            elif kind == "ins": t = [kind, str(rng.randint(0, len(cur))), G.rs(rng, n)]
+            elif kind == "rem" and cur: t = [kind, rng.choice(cur)]
+            elif kind == "del" and cur: t = [kind, str(rng.randint(-len(cur), len(cur) - 1))]
+            elif kind == "rep" and cur: t = [kind, rng.choice(cur), G.rs(rng, n)]
+            elif kind == "con" and len(cur) >= 2: t = [kind] + rng.sample(cur, 2)
+            else: t = ["sort"]
+            cur = C10.spec_edit(cur, t)
+            ops.append(":".join(t))
+        out.append(f"qhist {','.join(init)} {';'.join(ops)}")
+    return out
+
 def oracle_qbasis(line, out):
     t = line.split(" ")
     if out.startswith("?") or out == "bad-op":
@@ -763,6 +822,8 @@ def build_streams(rng, tier):
         Stream("twirl-float", gen_twirl(rng, 900 if th else 150, [1, 2, 2, 3] if th else [1, 2, 2], False), h,
                batch_oracle=make_batch("float"), model=False, **kw),
         Stream("malformed", gen_malformed(rng, 400 if th else 90), h, batch_oracle=auto, model=False, **kw),
+        Stream("basis-and-twirl-on-one-collection-object-across-edits", gen_qhist(rng, 400 if th else 120), qhist_handle,
+               oracle=lambda l, o: None if o == "ok" else o, model=False, tag=lambda l, o: "qhist:" + ("ok" if o == "ok" else "bad")),
     ]
 
 RULE = ("corpus witnesses; qbasis (exact text vs the model + dense numpy oracle on the implementation's printed basis: every symmetry "
@@ -811,6 +872,10 @@ def replay(path):
     line = r.get("line")
     if r.get("tier") in COMPLETENESS_MAXN:
         _TIER[0] = r["tier"]
+    if line.startswith("qhist "):
+        out = qhist_handle(line)
+        print("line:", line); print("oracle:", "holds" if out == "ok" else out)
+        return 0 if out == "ok" else 1
     out = S.handle(line)
     try:
         mo = run_model([line])[0]
